@@ -539,6 +539,8 @@ class PageXMLTableCell(PageXMLDoc):
         doc_json['cell_span'] = self.cell_span
         doc_json['row_span'] = self.row_span
         doc_json['lines'] = [line.json for line in self.lines]
+        if self.header is not None:
+            doc_json['header'] = self.header
         if self.cornerpoints:
             doc_json['cornerpoints'] = self.cornerpoints
         if self.orientation:
